@@ -8,7 +8,8 @@ MC          : DepSet_MC — TLC builds every well-formed structure up to MaxNode
 spec -> code: DepSet_Export enumerates every structure (<= N nodes) of each flavour (dependencies,
               LICENSE, RESTRICT, SRC_URI with renames, REQUIRED_USE) rendered to tokens, plus every
               one-token corruption; the text goes through the real DepSet.parse of that flavour,
-              str(), re-parse, and evaluate_depset(U) for every U.
+              str(), re-parse, and evaluate_depset(U) for every U - and once more after node_conds /
+              known_conditionals have been read (the result must not depend on that).
               The export also holds the nesting family: a group of every kind nested directly in a
               group of every kind (depth 2-3, >= 2 distinct members each) with a conditional beside /
               inside / around it.
@@ -153,7 +154,7 @@ def observe(api, tid, fl, text):
     """Run one text through parse / str / re-parse / evaluate and record what happened."""
     toks = lex(text, fl)
     ev = dict(tid=tid, i=0, fl=fl, toks=toks, text=text, raised=False, ast=[], rtoks=[], re_raised=False, re_ast=[], eq=True,
-              evals=[])
+              evals=[], evals2=[])
     try:
         d = api.parsers[fl](text)
     except api.Error:
@@ -171,6 +172,10 @@ def observe(api, tid, fl, text):
         ev["re_raised"] = True
     for use in subsets(flags_of(toks)):
         ev["evals"].append(dict(use=use, ast=api.nodes(d.evaluate_depset(use))))
+    # the same evaluations once the inspection attributes other consumers read have been read
+    d.node_conds, d.known_conditionals, d.has_conditionals
+    for use in subsets(flags_of(toks)):
+        ev["evals2"].append(dict(use=use, ast=api.nodes(d.evaluate_depset(use))))
     return ev
 
 
@@ -251,10 +256,8 @@ def detail_of(e, v):
     d = dict(flavour=e["fl"], text=e["text"], raised=e["raised"])
     if not e["raised"]:
         d["rendered"] = e.get("rendered", "")
-    if v.get("extra") and v["extra"][0] != []:
-        d["use"] = v["extra"][0]
-    elif v["clause"].startswith("Eval_"):
-        d["use"] = []
+    if v["clause"].startswith("Eval"):
+        d["use"] = v["extra"][0] if v.get("extra") else []
     return d
 
 
